@@ -13,6 +13,11 @@ binary32 / binary64 midpoint and width: error kind, result dtype and every eleme
 be equal (theorems: Lemmas/C19Float.lean).  Predicate only: prices that DECREASE in volatility
 (in-the-money binaries, user pricers through
 find_implied_volatility); modules built from a simulated derivative with the state omitted.
+The caller's tensors used AGAIN after a call: one pair of bracket tensors of the full shape of the problem (also 0-dim ones) serves a
+second and a third call of bisect (new targets in a new tensor, in the caller's previous target tensor refilled in place, or the same
+tensor again) -- every such call goes to the model ops "bisect" (Rat and Float carrier) / "bisect_fp" with the bracket as the caller
+created it, and is judged by the same root predicate; likewise find_implied_volatility with the caller's own (per-element) bracket
+tensors and the modules' implied_volatility with the same state / price tensors (predicate only).
 """
 import math
 from fractions import Fraction as F
@@ -30,6 +35,20 @@ def f_eval(kind, coef, x):
         a, b = coef
         return a * x * x + b
     raise ValueError(kind)
+
+
+def pick_target(g, fl, fu):
+    """a target inside the range [fl, fu] of the function on the bracket: an end, near an end, or on a 1/64 grid"""
+    r = g.r.random()
+    if r < 0.1:
+        return fl
+    if r < 0.2:
+        return fu
+    if r < 0.3:
+        return min(fl, fu) + abs(fu - fl) * F(1, 1 << 10)      # near an end
+    if r < 0.4:
+        return max(fl, fu) - abs(fu - fl) * F(1, 1 << 10)
+    return min(fl, fu) + abs(fu - fl) * F(g.randint(0, 64), 64)
 
 
 def gen_case(g, tier):
@@ -54,18 +73,7 @@ def gen_case(g, tier):
         l, u = (lo0, hi0) if scalar_bracket else (lo0 + g.choice([0, F(1, 4), F(-1, 4)]), hi0 + g.choice([0, F(1, 2)]))
         if kind == "square" and l < 0:
             l = F(0)
-        fl, fu = f_eval(kind, c, l), f_eval(kind, c, u)
-        r = g.r.random()
-        if r < 0.1:
-            t = fl
-        elif r < 0.2:
-            t = fu
-        elif r < 0.3:
-            t = min(fl, fu) + abs(fu - fl) * F(1, 1 << 10)      # near an end
-        elif r < 0.4:
-            t = max(fl, fu) - abs(fu - fl) * F(1, 1 << 10)
-        else:
-            t = min(fl, fu) + abs(fu - fl) * F(g.randint(0, 64), 64)
+        t = pick_target(g, f_eval(kind, c, l), f_eval(kind, c, u))
         coef.append(c)
         lower.append(l)
         upper.append(u)
@@ -94,22 +102,64 @@ def gen_case(g, tier):
                 max_iter=max_iter, dec=dec, scalar=scalar_bracket, bad=bad_bracket)
 
 
+def gen_reuse_case(g, tier):
+    """the caller keeps ONE pair of bracket tensors of the full shape of the problem (as torch.full / torch.tensor create them) and
+    solves several batches of targets against them: `rounds` = the targets of the successive calls.  The target tensor of a later call
+    is a new tensor, the caller's previous target tensor refilled in place by the caller, or the very same tensor again."""
+    c = gen_case(g, tier)
+    while c["bad"]:
+        c = gen_case(g, tier)
+    c["scalar"] = False            # a common bracket is held as full-shape tensors too (torch.full)
+    rounds = [{"target": c["target"], "target_tensor": "new"}]
+    for _ in range(g.choice([1, 2, 2])):
+        mode = g.weighted([("new", 3), ("refilled", 2), ("same", 1)])
+        if mode == "same":
+            tgt = rounds[-1]["target"]
+        else:
+            tgt = [pick_target(g, f_eval(c["kind"], co, l), f_eval(c["kind"], co, u)) for co, l, u in zip(c["coef"], c["lower"], c["upper"])]
+        rounds.append({"target": tgt, "target_tensor": mode})
+    c["rounds"] = rounds
+    return c
+
+
 def to_req(c):
     return {"op": "bisect", "carrier": "rat", "fn": c["kind"], "coef": enc_rat(c["coef"]), "target": enc_rat(c["target"]),
             "lower": enc_rat(c["lower"]), "upper": enc_rat(c["upper"]), "precision": rat_str(c["precision"]),
             "max_iter": c["max_iter"]}
 
 
+def impl_fn(torch, c):
+    co = [torch.tensor([float(r[j]) for r in c["coef"]], dtype=torch.float64) for j in range(len(c["coef"][0]))]
+    if c["kind"] == "affine":
+        return lambda x: co[0] * x + co[1]
+    if c["kind"] == "cubic":
+        return lambda x: co[0] * x * x * x + co[1] * x + co[2]
+    return lambda x: co[0] * x * x + co[1]
+
+
+def impl_bisect_rounds(torch, c):
+    """the successive calls of a gen_reuse_case with the SAME bracket tensor objects -> [(result, mutated paths)] per call"""
+    from pfhedge._utils.bisect import bisect
+    dt = torch.float64
+    fn = impl_fn(torch, c)
+    lower = torch.tensor([float(x) for x in c["lower"]], dtype=dt)
+    upper = torch.tensor([float(x) for x in c["upper"]], dtype=dt)
+    target, outs = None, []
+    for rd in c["rounds"]:
+        vals = torch.tensor([float(x) for x in rd["target"]], dtype=dt)
+        if target is None or rd["target_tensor"] == "new":
+            target = vals
+        elif rd["target_tensor"] == "refilled":
+            target.copy_(vals)              # the caller's own update of its own tensor, between the calls
+        st, v, mut = call_impl(bisect, fn, target, lower, upper, precision=float(c["precision"]), max_iter=c["max_iter"])
+        outs.append((("ok", tensor_to_fracs(v.expand(len(rd["target"])) if v.dim() == 0 else v)) if st == "ok" else ("err", v), mut))
+    return outs
+
+
 def impl_bisect(torch, c):
     from pfhedge._utils.bisect import bisect
     dt = torch.float64
-    co = [torch.tensor([float(r[j]) for r in c["coef"]], dtype=dt) for j in range(len(c["coef"][0]))]
-    if c["kind"] == "affine":
-        fn = lambda x: co[0] * x + co[1]
-    elif c["kind"] == "cubic":
-        fn = lambda x: co[0] * x * x * x + co[1] * x + co[2]
-    else:
-        fn = lambda x: co[0] * x * x + co[1]
+    fn = impl_fn(torch, c)
     target = torch.tensor([float(x) for x in c["target"]], dtype=dt)
     if c["scalar"]:
         lower, upper = float(c["lower"][0]), float(c["upper"][0])
@@ -168,18 +218,32 @@ def gen_resolution_case(g):
     max_iter = g.choice([100, 200, 1000])
     if prec == 0.0 and g.chance(0.5):
         max_iter = 1200            # more halvings than a double has exponents
-    return dict(target_dtype=target_dt, bracket_dtype=bracket_dt, form=form, dec=dec, lower=lower, upper=upper, a=a, c=c, k=k, e=e,
+    case = dict(target_dtype=target_dt, bracket_dtype=bracket_dt, form=form, dec=dec, lower=lower, upper=upper, a=a, c=c, k=k, e=e,
                 precision=prec, max_iter=max_iter)
+    # the same bracket objects (tensors of the full shape, 0-dim tensors or floats) serve up to two further calls for other functions of
+    # the family (new c_i, k_i, e_i: roots elsewhere in the bracket): each round is a complete case of its own, "round" = its index
+    rounds = [case]
+    for j in range(g.choice([0, 0, 1, 2])):
+        c2, k2, e2 = [], [], []
+        for l, u in zip(lower, upper):
+            c2.append(l + (u - l) * F(g.randint(1, (1 << 12) - 1), 1 << 12))
+            k2.append(g.choice([0, 1, -1, 1, -1, 3, -3, 5, -5]))
+            e2.append(mant - 1 + g.randint(2, 9))
+        rounds.append(dict(case, c=c2, k=k2, e=e2, round=j + 1))
+    return rounds
 
 
-def run_resolution_case(torch, c):
+def run_resolution_case(torch, c, bracket=None):
+    """`bracket`: the (lower, upper) objects of an earlier call to be used again; returns them as third component"""
     from pfhedge._utils.bisect import bisect
     tdt, bdt = getattr(torch, c["target_dtype"]), getattr(torch, c["bracket_dtype"])
     A = torch.tensor([float(x) for x in c["a"]], dtype=tdt)
     C = torch.tensor([float(x) for x in c["c"]], dtype=tdt)
     target = torch.tensor([float(a * F(k, 1 << e)) for a, k, e in zip(c["a"], c["k"], c["e"])], dtype=tdt)
     fn = lambda x: A * (x - C)
-    if c["form"] == "pyfloat":
+    if bracket is not None:
+        lower, upper = bracket
+    elif c["form"] == "pyfloat":
         lower, upper = float(c["lower"][0]), float(c["upper"][0])
     elif c["form"] == "tensor0":
         lower, upper = torch.tensor(float(c["lower"][0]), dtype=bdt), torch.tensor(float(c["upper"][0]), dtype=bdt)
@@ -193,8 +257,8 @@ def run_resolution_case(torch, c):
     if st == "ok":
         ve = v.expand(len(c["a"])) if v.dim() == 0 else v
         # float32 -> float64 is exact and injective (no NaN here), so these are the element's bits
-        return ("ok", tensor_to_fracs(ve), str(v.dtype).replace("torch.", ""), enc_flt(ve.double().reshape(-1).tolist())), mut
-    return ("err", v, None, None), mut
+        return ("ok", tensor_to_fracs(ve), str(v.dtype).replace("torch.", ""), enc_flt(ve.double().reshape(-1).tolist())), mut, (lower, upper)
+    return ("err", v, None, None), mut, (lower, upper)
 
 
 def to_fp_req(c):
@@ -224,6 +288,16 @@ def check(ctx):
         if mut:
             ctx.mutated("bisect", mut, to_req(c))
         impl.append(r)
+    # the caller's bracket (and target) tensors used again: second and third call with the same tensor objects.  Every call is one
+    # entry of `cases` (round 0: a first call like the ones above); the model gets the bracket as the caller created it.
+    for _ in range(250 if ctx.tier == "quick" else 4000):
+        c = gen_reuse_case(g, ctx.tier)
+        for j, (rd, (r, mut)) in enumerate(zip(c["rounds"], impl_bisect_rounds(torch, c))):
+            cj = {k_: v_ for k_, v_ in c.items() if k_ != "rounds"} | {"target": rd["target"], "round": j, "target_tensor": rd["target_tensor"]}
+            if mut:
+                ctx.mutated("bisect", mut, to_req(cj) | {"round": j})
+            cases.append(cj)
+            impl.append(r)
     try:
         model = [mres(m) for m in ctx.driver([to_req(c) for c in cases])]
     except DriverBroken as e:
@@ -234,22 +308,31 @@ def check(ctx):
         ctx.stats[f"dec={c['dec']}"] += 1
         ctx.stats[f"scalar_bracket={c['scalar']}"] += 1
         ctx.stats[f"status={ri[0] if ri[0] != 'err' else ri[1]}"] += 1
-        ctx.case(to_req(c) | {"scalar": c["scalar"]}, nontrivial=not c["bad"], tag="bisect")
+        # kp: the input class of the failure keys -- a first call, or a later call on bracket tensors that were used before
+        kp = "bisect:reused-bracket" if c.get("round", 0) > 0 else "bisect"
+        again = " (second or later call with the same bracket tensors)" if c.get("round", 0) > 0 else ""
+        if "round" in c:
+            creq = to_req(c) | {"scalar": False, "round": c["round"], "target_tensor": c["target_tensor"]}
+            ctx.case(creq, nontrivial=True, tag="bisect_reused_bracket" if c["round"] > 0 else "bisect_full_shape_bracket_first_call")
+            ctx.stats[f"reused_bracket:round={c['round']}:target_tensor={c['target_tensor']}"] += 1
+        else:
+            creq = to_req(c)
+            ctx.case(to_req(c) | {"scalar": c["scalar"]}, nontrivial=not c["bad"], tag="bisect")
         ctx.traces += 1
         prec = c["precision"]
         width0 = max(u - l for l, u in zip(c["lower"], c["upper"]))
         # -- correspondence on what the property constrains: status, value within precision
         if ri[0] != rm[0] or (ri[0] == "err" and ri[1] != rm[1]):
-            ctx.disagree("bisect", to_req(c), ri if ri[0] != "ok" else ("ok", enc_rat(ri[1])),
+            ctx.disagree("bisect", creq, ri if ri[0] != "ok" else ("ok", enc_rat(ri[1])),
                          rm if rm[0] != "ok" else ("ok", enc_rat(rm[1])), note="status")
         elif ri[0] == "ok":
             if any(abs(a - b) > prec for a, b in zip(ri[1], rm[1])):
-                ctx.disagree("bisect", to_req(c), ("ok", enc_rat(ri[1])), ("ok", enc_rat(rm[1])), note="value beyond precision")
+                ctx.disagree("bisect", creq, ("ok", enc_rat(ri[1])), ("ok", enc_rat(rm[1])), note="value beyond precision")
             ctx.stats["bitwise_equal" if ri[1] == rm[1] else "bitwise_different"] += 1
         # -- property predicate (independent of the model)
         if c["bad"]:
             if ri[0] == "ok":
-                ctx.fail("bisect accepted a bracket with lower >= upper", to_req(c), key="bisect:bad-bracket")
+                ctx.fail("bisect accepted a bracket with lower >= upper", creq, key="bisect:bad-bracket")
             continue
         need = 0
         w = width0
@@ -258,11 +341,11 @@ def check(ctx):
             need += 1
         if need > c["max_iter"]:
             if ri != ("err", "runtime_error"):
-                ctx.fail("bisect did not stop with an error when max_iter is insufficient", to_req(c), key="bisect:max_iter",
+                ctx.fail("bisect did not stop with an error when max_iter is insufficient" + again, creq, key=kp + ":max_iter",
                          detail={"impl": str(ri)[:200], "needed": need})
             continue
         if ri[0] != "ok":
-            ctx.fail("bisect raised on a monotone function with the target inside the range", to_req(c), key="bisect:error", detail=ri)
+            ctx.fail("bisect raised on a monotone function with the target inside the range" + again, creq, key=kp + ":error", detail=ri)
             continue
         for i, x in enumerate(ri[1]):
             co, t = c["coef"][i], c["target"][i]
@@ -272,10 +355,11 @@ def check(ctx):
             lo_v, hi_v = f(a), f(b)
             inside = (min(lo_v, hi_v) <= t <= max(lo_v, hi_v)) and l <= x <= u
             if not inside:
-                ctx.fail("bisect result is not within `precision` of the true root", to_req(c) | {"scalar": c["scalar"]},
-                         key="bisect:root", detail={"i": i, "x": rat_str(x), "f(x-prec)": rat_str(lo_v), "f(x)": rat_str(hi_v), "target": rat_str(t)})
+                ctx.fail("bisect result is not within `precision` of the true root" + again, creq | {"scalar": c["scalar"]},
+                         key=kp + ":root", detail={"i": i, "x": rat_str(x), "f(x-prec)": rat_str(lo_v), "f(x)": rat_str(hi_v), "target": rat_str(t)})
                 break
-    # ---------------- Float families (exp, logistic)
+    # ---------------- Float families (exp, logistic); the full-shape bracket tensors of a case serve one to three successive calls
+    # (new roots each time), every call also goes to the model with the bracket as the caller created it
     freqs, fmeta = [], []
     from pfhedge._utils.bisect import bisect
     for _ in range(200 if ctx.tier == "quick" else 3000):
@@ -292,26 +376,32 @@ def check(ctx):
         else:
             fn = lambda x: 1.0 / (1.0 + torch.exp(-(co[0] * x + co[1])))
             pf = lambda i, x: 1.0 / (1.0 + math.exp(-(coef[i][0] * x + coef[i][1])))
-        roots = [g.r.uniform(lo, hi) for _ in range(n_)]
-        target = [pf(i, r) for i, r in enumerate(roots)]
-        prec = g.choice([1e-3, 1e-6, 1e-9])
         lower = torch.full((n_,), lo, dtype=torch.float64)
         upper = torch.full((n_,), hi, dtype=torch.float64)
-        st, v, _ = call_impl(bisect, fn, torch.tensor(target, dtype=torch.float64), lower, upper, precision=prec, max_iter=200)
-        case = {"kind": kind, "coef": coef, "lower": lo, "upper": hi, "roots": roots, "precision": prec}
-        ctx.case(case, True, tag="bisect_" + kind)
-        ctx.traces += 1
-        if st != "ok":
-            ctx.fail("bisect raised on a monotone function with the target inside the range", case, key="bisect:error", detail=v)
-            continue
-        got = [float(x) for x in v.tolist()]
-        for r, x in zip(roots, got):
-            if not (-1e-12 <= x - r <= prec * (1 + 1e-9) + 1e-12):
-                ctx.fail("bisect result is not within `precision` of the true root", case, key="bisect:root", detail={"root": r, "x": x})
-                break
-        freqs.append({"op": "bisect", "carrier": "float", "fn": kind, "coef": enc_flt(coef), "target": enc_flt(target),
-                      "lower": enc_flt([lo] * n_), "upper": enc_flt([hi] * n_), "precision": float_bits(prec), "max_iter": 200})
-        fmeta.append((case, got, prec))
+        for rnd in range(g.choice([1, 2, 3])):
+            roots = [g.r.uniform(lo, hi) for _ in range(n_)]
+            target = [pf(i, r) for i, r in enumerate(roots)]
+            prec = g.choice([1e-3, 1e-6, 1e-9])
+            st, v, mut = call_impl(bisect, fn, torch.tensor(target, dtype=torch.float64), lower, upper, precision=prec, max_iter=200)
+            case = {"kind": kind, "coef": coef, "lower": lo, "upper": hi, "roots": roots, "precision": prec}
+            if rnd:
+                case["call_with_the_same_bracket_tensors"] = rnd + 1
+            kp = "bisect:reused-bracket" if rnd else "bisect"
+            ctx.case(case, True, tag="bisect_" + kind + ("_reused_bracket" if rnd else ""))
+            ctx.traces += 1
+            if mut:
+                ctx.mutated("bisect", mut, case)
+            if st != "ok":
+                ctx.fail("bisect raised on a monotone function with the target inside the range", case, key=kp + ":error", detail=v)
+                continue
+            got = [float(x) for x in v.tolist()]
+            for r, x in zip(roots, got):
+                if not (-1e-12 <= x - r <= prec * (1 + 1e-9) + 1e-12):
+                    ctx.fail("bisect result is not within `precision` of the true root", case, key=kp + ":root", detail={"root": r, "x": x})
+                    break
+            freqs.append({"op": "bisect", "carrier": "float", "fn": kind, "coef": enc_flt(coef), "target": enc_flt(target),
+                          "lower": enc_flt([lo] * n_), "upper": enc_flt([hi] * n_), "precision": float_bits(prec), "max_iter": 200})
+            fmeta.append((case, got, prec))
     try:
         fouts = ctx.driver(freqs)
     except DriverBroken as e:
@@ -394,6 +484,81 @@ def check(ctx):
                 continue
             ctx.fail("implied volatility does not reproduce the generating volatility to the requested precision", case,
                      key=f"implied_volatility:{which}", detail={"iv": got, "precision": prec})
+    # ---------------- the modules' implied_volatility called again with the SAME tensor objects: the state tensors (full shape, several
+    # elements) serve two or three calls; the price tensor of a later call is a new tensor, the caller's previous one refilled in place
+    # by the caller with the prices of new volatilities, or the very same tensor again.  Same predicate as above, element-wise.
+    for _ in range(70 if ctx.tier == "quick" else 700):
+        which = g.choice(["european", "european_put", "lookback", "binary", "american_binary"] + BINARY_KINDS)
+        k = g.choice([0.5, 1.0, 2.0])
+        n_ = g.small((1, 2, 3, 4))
+        dt = torch.float64
+        ss, ts, ms = [], [], []
+        for _i in range(n_):
+            t = g.choice([0.1, 0.5, 1.0, 2.0])
+            if which in ("binary", "american_binary", "binary_put_itm"):
+                s = g.r.uniform(-0.3, -0.02)
+                if which != "american_binary":
+                    t = -s
+            elif which in ("binary_itm", "binary_put_otm"):
+                s = g.r.uniform(0.0, 0.3)
+            elif which == "binary_atm":
+                s = 0.0
+            else:
+                s = g.r.uniform(-0.3, 0.3)
+            ss.append(s)
+            ts.append(t)
+            ms.append(s if which == "american_binary" else max(s, 0.0) + g.choice([0.0, 0.1]))
+        prec = g.choice([1e-6, 1e-6, 1e-9, 1e-4])
+        if which in ("european", "european_put"):
+            m = BSEuropeanOption(call=which == "european", strike=k)
+        elif which == "lookback":
+            m = BSLookbackOption(strike=k)
+        elif which == "american_binary":
+            m = BSAmericanBinaryOption(strike=k)
+        else:
+            m = BSEuropeanBinaryOption(call="put" not in which, strike=k)
+        S, T_ = torch.tensor(ss, dtype=dt), torch.tensor(ts, dtype=dt)
+        state = (S, torch.tensor(ms, dtype=dt), T_) if which in ("lookback", "american_binary") else (S, T_)
+        P, sigs = None, None
+        for rnd in range(g.choice([2, 3])):
+            mode = "new" if rnd == 0 else g.weighted([("refilled", 3), ("new", 2), ("same", 1)])
+            if mode != "same":
+                sigs = [g.r.uniform(0.02, 0.95) for _i in range(n_)]
+            case = {"which": which, "s": ss, "t": ts, "sigma": sigs, "k": k, "precision": prec, "call_with_the_same_state_tensors": rnd + 1,
+                    "price_tensor": mode}
+            if which in ("lookback", "american_binary"):
+                case["max_log_moneyness"] = ms
+            sfx = ":reused-tensors" if rnd else ""
+            st, pnew, _m = call_impl(m.price, *state, torch.tensor(sigs, dtype=dt))
+            if st == "ok" and mode == "new":
+                P = pnew
+            elif st == "ok" and mode == "refilled":
+                P.copy_(pnew)                      # the caller's own update of its own tensor, between the calls
+            if st == "ok":
+                st, iv, mut = call_impl(m.implied_volatility, *state, P, precision=prec)
+            if st != "ok":
+                ctx.fail("implied_volatility raised for a price generated by the same module", case,
+                         key=f"implied_volatility:{which}{sfx}:error", detail=pnew if isinstance(pnew, str) else iv)
+                break
+            ctx.case(case, True, tag="iv_" + which + ("_reused_tensors" if rnd else "_vector"))
+            ctx.stats[f"iv_reused_tensors:price_tensor={mode}"] += 1
+            ctx.traces += 1
+            if mut:
+                ctx.mutated(f"implied_volatility:{which}", mut, case)
+            if tuple(iv.shape) != (n_,):
+                ctx.fail("implied_volatility returned a tensor of another shape than the price", case,
+                         key=f"implied_volatility:{which}{sfx}:error", detail=list(iv.shape))
+                break
+            far = (iv - torch.tensor(sigs, dtype=dt)).abs() > 2 * prec
+            if bool(far.any()):
+                # ill-conditioned elements (vega ~ 0): any volatility reproducing the price to float resolution is a correct answer
+                bad = far & ~((m.price(*state, iv) - P).abs() <= 1e-13 * max(k, 1.0))
+                ctx.stats["iv_ill_conditioned"] += int((far & ~bad).sum())
+                if bool(bad.any()):
+                    i = int(bad.nonzero()[0])
+                    ctx.fail("implied volatility does not reproduce the generating volatility to the requested precision"
+                             + (" when the state / price tensors of an earlier call are used again" if rnd else ""), case,
+                             key=f"implied_volatility:{which}{sfx}", detail={"i": i, "iv": float(iv[i]), "sigma": sigs[i], "precision": prec})
     # ---------------- find_implied_volatility with user pricers that are monotone in volatility in either direction
     from pfhedge._utils.bisect import find_implied_volatility
     for _ in range(120 if ctx.tier == "quick" else 1200):
@@ -421,24 +586,50 @@ def check(ctx):
         sigs = [g.r.uniform(0.002, 0.999) for _ in range(n_)]
         price = torch.tensor([sg * a * h(b, v, math) + off for a, b, v in zip(A, B, sigs)], dtype=torch.float64)
         prec = g.choice([1e-4, 1e-6, 1e-9])
-        st, val, _ = call_impl(find_implied_volatility, pricer, price, precision=prec, scale=At, shape=Bt, offset=off)
-        case = {"user_pricer": form, "decreasing": dec, "scale": A, "shape": B, "offset": off, "sigma": sigs, "precision": prec}
-        ctx.case(case, True, tag="find_iv_user_pricer")
-        ctx.stats[f"find_iv_decreasing={dec}"] += 1
-        ctx.traces += 1
+        # the search bracket: the default one, or the caller's own tensors (0-dim, or one bracket per element in the full shape of the
+        # prices) which then serve a second and a third call with the prices of other volatilities inside them
+        bracket = g.weighted([("default", 2), ("tensor0", 1), ("per_element", 2)])
+        lo_b, hi_b, kw = [0.001] * n_, [1.0] * n_, {}
+        if bracket == "tensor0":
+            kw = dict(lower=torch.tensor(0.001, dtype=torch.float64), upper=torch.tensor(1.0, dtype=torch.float64))
+        elif bracket == "per_element":
+            lo_b = [max(0.001, v - g.r.uniform(0.001, 0.5)) for v in sigs]
+            hi_b = [min(1.0, v + g.r.uniform(0.001, 0.5)) for v in sigs]
+            kw = dict(lower=torch.tensor(lo_b, dtype=torch.float64), upper=torch.tensor(hi_b, dtype=torch.float64))
         direction = "decreasing" if dec else "increasing"
-        if st != "ok":
-            ctx.fail("find_implied_volatility raised for a price generated by the same (monotone) pricer", case,
-                     key=f"find_implied_volatility:{direction}:error", detail=val)
-            continue
-        got = [float(x) for x in val.tolist()]
-        for r, x in zip(sigs, got):
-            # slope >= 0.1 * 0.5, so the float evaluation of the pricer moves the root by < 1e-13
-            if not abs(x - r) <= prec * (1 + 1e-9) + 1e-12:
-                ctx.fail("find_implied_volatility does not recover the volatility that generated the price of a pricer that is "
-                         f"{direction} in volatility", case, key=f"find_implied_volatility:{direction}",
-                         detail={"sigma": r, "iv": x, "precision": prec})
-                break
+        for rnd in range(g.choice([1, 2, 3])):
+            mode = "new"
+            if rnd:
+                mode = g.weighted([("refilled", 3), ("new", 2), ("same", 1)])
+                if mode != "same":
+                    sigs = [g.r.uniform(l + 0.25 * (u - l) * g.r.random(), u - 0.25 * (u - l) * g.r.random()) for l, u in zip(lo_b, hi_b)]
+                    pnew = torch.tensor([sg * a * h(b, v, math) + off for a, b, v in zip(A, B, sigs)], dtype=torch.float64)
+                    if mode == "new":
+                        price = pnew
+                    else:
+                        price.copy_(pnew)          # the caller's own update of its own tensor, between the calls
+            st, val, mut = call_impl(find_implied_volatility, pricer, price, precision=prec, scale=At, shape=Bt, offset=off, **kw)
+            case = {"user_pricer": form, "decreasing": dec, "scale": A, "shape": B, "offset": off, "sigma": sigs, "precision": prec}
+            if bracket != "default" or rnd:
+                case |= {"bracket": bracket, "lower": lo_b, "upper": hi_b, "call_with_the_same_tensors": rnd + 1, "price_tensor": mode}
+            ctx.case(case, True, tag="find_iv_user_pricer" + ("_reused_tensors" if rnd else ""))
+            ctx.stats[f"find_iv_decreasing={dec}"] += 1
+            ctx.stats[f"find_iv_bracket={bracket}"] += 1
+            ctx.traces += 1
+            if mut:
+                ctx.mutated("find_implied_volatility", mut, case)
+            kp = f"find_implied_volatility:{direction}" + (":reused-tensors" if rnd else "")
+            if st != "ok":
+                ctx.fail("find_implied_volatility raised for a price generated by the same (monotone) pricer", case, key=kp + ":error", detail=val)
+                continue
+            got = [float(x) for x in (val.expand(n_) if val.dim() == 0 else val).tolist()]
+            for r, x in zip(sigs, got):
+                # slope >= 0.1 * 0.5, so the float evaluation of the pricer moves the root by < 1e-13
+                if not abs(x - r) <= prec * (1 + 1e-9) + 1e-12:
+                    ctx.fail("find_implied_volatility does not recover the volatility that generated the price of a pricer that is "
+                             f"{direction} in volatility" + (" when the bracket / price tensors of an earlier call are used again" if rnd else ""),
+                             case, key=kp, detail={"sigma": r, "iv": x, "precision": prec})
+                    break
     # ---------------- modules built from a simulated derivative: the state (all of it, or a part) is taken from the derivative
     from pfhedge.instruments import BrownianStock, EuropeanOption, LookbackOption
     for _ in range(40 if ctx.tier == "quick" else 400):
@@ -467,80 +658,89 @@ def check(ctx):
         M = deriv.max_log_moneyness() if which == "lookback" else None
         # explicit state, module without derivative: the pricing function whose volatility is to be recovered
         reprice = (lambda vv: ref.price(S, M, T_, vv)) if which == "lookback" else (lambda vv: ref.price(S, T_, vv))
-        try:
-            p = mod.price()
-            if which != "lookback":
-                iv = mod.implied_volatility(price=p, precision=prec)
-            elif omit == "all":
-                iv = mod.implied_volatility(price=p, precision=prec)
-            elif omit == "max_log_moneyness":
-                iv = mod.implied_volatility(S, None, T_, p, precision=prec)
-            else:
-                iv = mod.implied_volatility(None, M, None, p, precision=prec)
-        except Exception as e:  # noqa
-            ctx.fail("implied_volatility raised for the price of a module built from a simulated derivative", case,
-                     key=f"implied_volatility:{which}:from_derivative:error", detail=repr(e)[:200])
-            continue
-        below_max = int(((M - S) > 0).sum()) if which == "lookback" else 0
-        ctx.case(case, True, tag="iv_from_derivative_" + which)
-        ctx.stats["iv_from_derivative_points_below_running_max"] += below_max
-        ctx.traces += 1
-        if not torch.allclose(p, reprice(torch.full_like(S, sig)), rtol=1e-12, atol=1e-14):
-            ctx.stats["iv_from_derivative_price_differs_from_explicit_state (skipped: premise of the round trip; C07/C18 matter)"] += 1
-            continue
-        # same predicate as above, element-wise over (path, time): within the requested precision of the underlier's volatility, or
-        # (no vega: at maturity, deep in / out of the money) any volatility that reproduces the price to float resolution
-        far = (iv - sig).abs() > 2 * prec
-        if bool(far.any()):
-            resid = (reprice(iv) - p).abs()
-            bad = far & ~(resid <= 1e-13 * max(k, 1.0))
-            ctx.stats["iv_ill_conditioned"] += int((far & ~bad).sum())
-            if bool(bad.any()):
-                i, j = [int(x) for x in bad.nonzero()[0]]
-                ctx.fail("implied volatility with the state taken from the derivative does not reproduce the underlier's volatility to the "
-                         "requested precision", case, key=f"implied_volatility:{which}:from_derivative:{omit}",
-                         detail={"path": i, "step": j, "iv": float(iv[i, j]), "log_moneyness": float(S[i, j]),
-                                 "max_log_moneyness": float(M[i, j]) if M is not None else None, "time_to_maturity": float(T_[i, j])})
+        # two calls with the same price tensor (and the same explicit state tensors): the second one is judged like the first
+        p = None
+        for rnd in range(2):
+            sfx = ":reused-tensors" if rnd else ""
+            if rnd:
+                case = case | {"call_with_the_same_tensors": rnd + 1}
+            try:
+                if p is None:
+                    p = mod.price()
+                if which != "lookback":
+                    iv = mod.implied_volatility(price=p, precision=prec)
+                elif omit == "all":
+                    iv = mod.implied_volatility(price=p, precision=prec)
+                elif omit == "max_log_moneyness":
+                    iv = mod.implied_volatility(S, None, T_, p, precision=prec)
+                else:
+                    iv = mod.implied_volatility(None, M, None, p, precision=prec)
+            except Exception as e:  # noqa
+                ctx.fail("implied_volatility raised for the price of a module built from a simulated derivative", case,
+                         key=f"implied_volatility:{which}:from_derivative{sfx}:error", detail=repr(e)[:200])
+                break
+            below_max = int(((M - S) > 0).sum()) if which == "lookback" else 0
+            ctx.case(case, True, tag="iv_from_derivative_" + which + ("_reused_tensors" if rnd else ""))
+            ctx.stats["iv_from_derivative_points_below_running_max"] += below_max
+            ctx.traces += 1
+            if not torch.allclose(p, reprice(torch.full_like(S, sig)), rtol=1e-12, atol=1e-14):
+                ctx.stats["iv_from_derivative_price_differs_from_explicit_state (skipped: premise of the round trip; C07/C18 matter)"] += 1
+                break
+            # same predicate as above, element-wise over (path, time): within the requested precision of the underlier's volatility, or
+            # (no vega: at maturity, deep in / out of the money) any volatility that reproduces the price to float resolution
+            far = (iv - sig).abs() > 2 * prec
+            if bool(far.any()):
+                resid = (reprice(iv) - p).abs()
+                bad = far & ~(resid <= 1e-13 * max(k, 1.0))
+                ctx.stats["iv_ill_conditioned"] += int((far & ~bad).sum())
+                if bool(bad.any()):
+                    i, j = [int(x) for x in bad.nonzero()[0]]
+                    ctx.fail("implied volatility with the state taken from the derivative does not reproduce the underlier's volatility to the "
+                             "requested precision", case, key=f"implied_volatility:{which}:from_derivative:{omit}{sfx}",
+                             detail={"path": i, "step": j, "iv": float(iv[i, j]), "log_moneyness": float(S[i, j]),
+                                     "max_log_moneyness": float(M[i, j]) if M is not None else None, "time_to_maturity": float(T_[i, j])})
     # ---------------- precisions at / below the resolution of the bracket's dtype (exact affine family, judged with Fractions)
     fp_reqs, fp_impl = [], []
     for _ in range(200 if ctx.tier == "quick" else 2500):
-        c = gen_resolution_case(g)
-        (st, val, odt, bits), mut = run_resolution_case(torch, c)
-        fp_reqs.append(to_fp_req(c))
-        fp_impl.append({"ok": bits, "dtype": odt} if st == "ok" else {"err": val})
-        canon = {k_: (enc_rat(v_) if isinstance(v_, list) and k_ not in ("k", "e") else v_) for k_, v_ in c.items()}
-        if mut:
-            ctx.mutated("bisect", mut, canon)
-        prec = F(c["precision"])
-        spacing = F(1, 1 << (MANT[c["bracket_dtype"]] - 1))      # of the floats in [1, 2), where the bracket lives
-        reachable = prec >= spacing
-        ctx.case(canon, True, tag="bisect_resolution")
-        ctx.stats[f"resolution:{c['bracket_dtype']}:{'reachable' if reachable else 'below-resolution'}:{st if st == 'ok' else val}"] += 1
-        ctx.traces += 1
-        roots = [ci + F(ki, 1 << ei) for ci, ki, ei in zip(c["c"], c["k"], c["e"])]
-        cls = "root" if reachable else "precision-below-resolution"
-        if st == "ok":
-            for i, (x, r) in enumerate(zip(val, roots)):
-                if isinstance(x, str) or abs(x - r) > prec:
-                    ctx.fail("bisect returned a point that is not within `precision` of the true root (it neither converged nor stopped "
-                             "with an error)" if not reachable else "bisect result is not within `precision` of the true root", canon,
-                             key=f"bisect:{c['bracket_dtype']}:{cls}",
-                             detail={"i": i, "x": rat_str(x), "true_root": rat_str(r), "|x-root|": float(abs(x - r)) if not isinstance(x, str) else x,
-                                     "precision": c["precision"], "float_spacing": float(spacing)})
-                    break
-            continue
-        if val != "runtime_error":
-            ctx.fail("bisect raised something else than RuntimeError on a monotone function with the target inside the range", canon,
-                     key=f"bisect:{c['bracket_dtype']}:{cls}:error", detail=val)
-            continue
-        # an error is the right outcome exactly when the precision cannot be reached within max_iter halvings
-        need, w = 0, max(u - l for l, u in zip(c["lower"], c["upper"]))
-        while reachable and w > prec:
-            w /= 2
-            need += 1
-        if reachable and need <= c["max_iter"]:
-            ctx.fail("bisect stopped with an error although the precision is reachable within max_iter", canon,
-                     key=f"bisect:{c['bracket_dtype']}:root:error", detail={"needed": need})
+        bracket = None
+        for c in gen_resolution_case(g):
+            (st, val, odt, bits), mut, bracket = run_resolution_case(torch, c, bracket)
+            again = ":reused-bracket" if c.get("round") else ""
+            fp_reqs.append(to_fp_req(c))
+            fp_impl.append({"ok": bits, "dtype": odt} if st == "ok" else {"err": val})
+            canon = {k_: (enc_rat(v_) if isinstance(v_, list) and k_ not in ("k", "e") else v_) for k_, v_ in c.items()}
+            if mut:
+                ctx.mutated("bisect", mut, canon)
+            prec = F(c["precision"])
+            spacing = F(1, 1 << (MANT[c["bracket_dtype"]] - 1))      # of the floats in [1, 2), where the bracket lives
+            reachable = prec >= spacing
+            ctx.case(canon, True, tag="bisect_resolution" + ("_reused_bracket" if again else ""))
+            ctx.stats[f"resolution:{c['bracket_dtype']}:{'reachable' if reachable else 'below-resolution'}:{st if st == 'ok' else val}"] += 1
+            ctx.traces += 1
+            roots = [ci + F(ki, 1 << ei) for ci, ki, ei in zip(c["c"], c["k"], c["e"])]
+            cls = "root" if reachable else "precision-below-resolution"
+            if st == "ok":
+                for i, (x, r) in enumerate(zip(val, roots)):
+                    if isinstance(x, str) or abs(x - r) > prec:
+                        ctx.fail("bisect returned a point that is not within `precision` of the true root (it neither converged nor stopped "
+                                 "with an error)" if not reachable else "bisect result is not within `precision` of the true root", canon,
+                                 key=f"bisect:{c['bracket_dtype']}:{cls}{again}",
+                                 detail={"i": i, "x": rat_str(x), "true_root": rat_str(r), "|x-root|": float(abs(x - r)) if not isinstance(x, str) else x,
+                                         "precision": c["precision"], "float_spacing": float(spacing)})
+                        break
+                continue
+            if val != "runtime_error":
+                ctx.fail("bisect raised something else than RuntimeError on a monotone function with the target inside the range", canon,
+                         key=f"bisect:{c['bracket_dtype']}:{cls}{again}:error", detail=val)
+                continue
+            # an error is the right outcome exactly when the precision cannot be reached within max_iter halvings
+            need, w = 0, max(u - l for l, u in zip(c["lower"], c["upper"]))
+            while reachable and w > prec:
+                w /= 2
+                need += 1
+            if reachable and need <= c["max_iter"]:
+                ctx.fail("bisect stopped with an error although the precision is reachable within max_iter", canon,
+                         key=f"bisect:{c['bracket_dtype']}:root{again}:error", detail={"needed": need})
     # -- correspondence with the generic model in IEEE arithmetic: bit for bit (error kind / dtype / every element)
     try:
         fp_model = ctx.driver(fp_reqs)
@@ -561,4 +761,6 @@ def check(ctx):
              "implied-volatility round trips for the four BS modules (European binary call/put on both sides of the money: increasing and decreasing in "
              "volatility), find_implied_volatility on increasing/decreasing user pricers, modules built from simulated derivatives with omitted state, "
              "precisions below the float32/float64 resolution on an exactly evaluated affine family (also run bit for bit against the generic model in "
-             "IEEE binary32/binary64 arithmetic, op bisect_fp); non-trivial = valid bracket; distinct = sha1 of canonical case")
+             "IEEE binary32/binary64 arithmetic, op bisect_fp); the caller's bracket / target / state / price tensors used again for a second and third call "
+             "(bisect on all families incl. the model ops, find_implied_volatility with per-element tensor brackets, the modules' implied_volatility on "
+             "vectors); non-trivial = valid bracket; distinct = sha1 of canonical case")
